@@ -364,13 +364,19 @@ def run_check(prop, tier, plan, seed):
         known = findings.load()
         reported = []
         seen_classes = collections.Counter()
+        has_open = findings.has_open(known, prop)
         if agg.violations:
             todo = []
             for task, reply in agg.violations:
                 v = reply["report"]["violations"][0]
                 cls = (v["oracle"], v.get("op"))
                 seen_classes[cls] += 1
-                if seen_classes[cls] <= plan.get("shrink_per_class", 2) and len(todo) < plan.get("max_shrinks", 6):
+                if has_open:
+                    # with open known findings every violating run must be minimised and classified, so that a
+                    # *different* violation of the same property is never hidden behind a listed one
+                    if len(todo) < plan.get("max_shrinks_with_open_findings", 40):
+                        todo.append((task, reply))
+                elif seen_classes[cls] <= plan.get("shrink_per_class", 2) and len(todo) < plan.get("max_shrinks", 6):
                     todo.append((task, reply))
             results = []
 
@@ -418,6 +424,11 @@ def run_check(prop, tier, plan, seed):
                 if kf is not None:
                     lines.append(f"  note: matches entry {kf['id']} recorded as fixed in known_findings.json — it has returned")
         unprocessed = sum(seen_classes.values()) - len(reported)
+        if has_open and unprocessed > 0 and not n_new:
+            # violating runs that could not be minimised and classified are never assumed to be the listed finding
+            n_new += 1
+            lines.append(f"VIOLATION property={prop} replay=<{unprocessed} violating runs were not minimised; "
+                         f"re-run with a smaller batch>")
         # ---------------- evidence + verdict ----------------
         total = agg.evaluations + len(agg.inconclusive) + len(agg.errors)
         if agg.errors:
